@@ -390,6 +390,27 @@ def gen_enums(const_names):
     return "\n".join(lines) + "\n"
 
 
+def gen_api_status():
+    """api/src/write.rs: the function that turns the provider's numeric write status into the api crate's
+    error (found by its use of `WriteResult::from_repr`); emitted as a table of (status, error) names"""
+    aw = strip_comments(strip_tests(read("api/src/write.rs")))
+    if "WriteResult::from_repr" not in aw:
+        raise ExtractError("no function in api/src/write.rs decodes the status with WriteResult::from_repr")
+    arms = re.findall(r"Some\(\s*WriteResult::(\w+)\s*\)\s*=>\s*(Ok\(\s*\(\)\s*\)|Err\(\s*(?:\w+::)*(\w+)\s*\))", aw)
+    none = re.search(r"\b(?:None|_)\s*=>\s*Err\(\s*(?:\w+::)*(\w+)\s*\)", aw)
+    if not arms or not none:
+        raise ExtractError("the status-to-error match in api/src/write.rs was not recognised")
+    rows = [(st, "Ok" if rhs.startswith("Ok") else err) for st, rhs, err in arms]
+    lines = ["-- REGENERATED by /verif/extract/extract.py from api/src/write.rs (status -> api error); do not edit",
+             "namespace SfVerif.Gen",
+             "/-- (provider status variant, api result: `Ok` or the `Error` variant) in source order -/",
+             "def apiWriteStatusMap : List (List Nat × List Nat) := [\n  %s\n]" % ",\n  ".join("(%s, %s)" % (name_lit(a), name_lit(b)) for a, b in rows),
+             "/-- what an unknown status number becomes -/",
+             "def apiWriteStatusUnknown : List Nat := %s" % name_lit(none.group(1)),
+             "end SfVerif.Gen"]
+    return "\n".join(lines) + "\n"
+
+
 def name_lit(s):
     """a name as a list of character codes (kernel-decidable equality), with the text in a comment"""
     return "/- %s -/ [%s]" % (s.replace("-/", "- /"), ", ".join(str(ord(c)) for c in s))
@@ -1497,7 +1518,8 @@ def main():
                                ("Markers.lean", "markers", gen_markers),
                                ("WriterStep.lean", "writer", gen_writer),
                                ("ReadEntry.lean", "read-entries", gen_read_entries),
-                               ("DeInt.lean", "deint", gen_deint)]:
+                               ("DeInt.lean", "deint", gen_deint),
+                               ("ApiStatus.lean", "api-status", gen_api_status)]:
         try:
             text = gen()
             if write_if_changed(fname, text):
